@@ -1,4 +1,5 @@
 import PbBss.Proofs.TensorProof
+import PbBss.Proofs.TensorEmProof
 /-! # C06 — leading (frequency/batch) axes are independent problems
 
 Statements only (proofs: `PbBss/Proofs/TensorProof.lean`; model: `PbBss/Model/Tensor.lean`).
@@ -435,6 +436,238 @@ example :
     let b : T Nat := ⟨[2, 3, 1], fun idx => 1000 * (idx.getD 1 0 + 1)⟩
     (fixLead (zipWith (· + ·) w232 b) 1 [2, 1]).get [0] = 3120 ∧
     (zipWith (· + ·) (fixLead w232 1 [2, 1]) (fixLead b 1 [2, 1])).get [0] = 3120 := by
+  decide
+
+/-! ## 5. the EM loops of the directional mixture trainers: `VMFMMTrainer`, `CWMMTrainer`, `CACGMMTrainer`
+
+Model: `PbBss/Model/TensorEm.lean` (line-by-line transcriptions of `vmfmm.py`, `cwmm.py`, `cacgmm.py`, `get_pca`), proofs:
+`PbBss/Proofs/TensorEmProof.lean`.  The state of a loop is a structure of tensors; `.fix lead` takes the slice of every
+field at a leading index (the class axis `K` stays in the core).  Externals:
+* elementwise ones (`lnorm D` = `log_norm()` of the component as a function of one concentration — `scipy.special.ive`
+  resp. `hyp1f1` —, `kinv` = the concentration spline of the Watson trainer) are applied with `map`; nothing is
+  assumed about them;
+* `eigh` = `np.linalg.eigh` of ONE `(D, D)` matrix; that NumPy applies it to every matrix of a stack independently is
+  part of the model (`mapCore`, exactly like `chol` in `fullPostInit` / `gmmFit`) — `mapCore_class_slices` is the
+  resulting slice law and holds for EVERY function `eigh`. -/
+
+/-- a per-matrix routine applied to every matrix of a stack (`np.linalg.eigh(covariance)` for `covariance : (..., K, D, D)`):
+with `e` leading axes kept in the core, the result at a leading index is the routine applied to the matrices of that
+slice — whatever the routine -/
+theorem mapCore_class_slices (c c' e : Nat) (oshape : List Nat) (g : T α → T β) (t : T α) (lead : List Nat)
+    (ho : oshape.length = c') (hr : c + e ≤ t.rank) :
+    fixLead (mapCore c c' oshape g t) (c' + e) lead = mapCore c c' oshape g (fixLead t (c + e) lead) :=
+  mapCore_fixLead_class c c' e oshape g t lead ho hr
+
+/-- `pb_bss.utils.get_pca` on a stack of scatter matrices `(..., K, D, D)`: `reshape(-1, D, D)`, per-matrix `eigh`, last
+eigenpair, reshape back.  Principal vector and eigenvalue at a valid leading index are those `get_pca` returns for
+the slice `(K, D, D)` alone. -/
+theorem getPca_slices {κ : Type} (eigh : T κ → T κ × T α) (psd : T κ) (lead : List Nat) (hg : GoodLead 2 psd lead) :
+    fixLead (getPca eigh psd).1 2 lead = (getPca eigh (fixLead psd 3 lead)).1 ∧
+    fixLead (getPca eigh psd).2 1 lead = (getPca eigh (fixLead psd 3 lead)).2 :=
+  getPca_class eigh psd lead hg
+
+section vmfmm
+variable [Add α] [Sub α] [Mul α] [Div α] [Neg α] [OfNat α 0] [OfNat α 1] [NatCast α] [Max α]
+  [LT α] [DecidableLT α] [BEq α] [Transc α]
+
+/-- `VMFMMTrainer._m_step`: weights, mean directions and concentrations of the stacked M-step at a leading index are
+those of the M-step run on the slice alone -/
+theorem vmfmmMStep_slices (tiny eps minC maxC : α) (y aff sal : T α) (lead : List Nat)
+    (hy : 2 ≤ y.rank) (ha : 2 ≤ aff.rank) (hs : 1 ≤ sal.rank) :
+    (vmfmmMStep tiny eps minC maxC y aff sal).fix lead =
+      vmfmmMStep tiny eps minC maxC (fixLead y 2 lead) (fixLead aff 2 lead) (fixLead sal 1 lead) :=
+  vmfmmMStep_fixLead tiny eps minC maxC y aff sal lead hy ha hs
+
+/-- `VMFMM.predict` (E-step, including the normalisation of the observations and `log_norm()`) -/
+theorem vmfmmPredict_slices (tiny : α) (lnorm : Nat → α → α) (m : Vmfmm α) (y : T α) (lead : List Nat)
+    (hw : 2 ≤ m.weight.rank) (hm : 2 ≤ m.mean.rank) (hc : 1 ≤ m.conc.rank) (hy : 2 ≤ y.rank) :
+    fixLead (vmfmmPredict tiny lnorm m y) 2 lead = vmfmmPredict tiny lnorm (m.fix lead) (fixLead y 2 lead) :=
+  vmfmmPredict_fixLead tiny lnorm m y lead hw hm hc hy
+
+/-- **`VMFMMTrainer._fit`, any number of iterations** (`iterations = n + 1`): every field of the model fitted on the
+stack, read at a leading index, is the field of the model fitted on that slice alone.  The only hypotheses: the inputs
+have their core axes (`y : (..., N, D)`, `initialization : (..., K, N)`, `saliency : (..., N)`); operands with
+singleton / missing leading axes are read as if repeated. -/
+theorem vmfmmFit_slices (tiny eps minC maxC : α) (lnorm : Nat → α → α) (y init sal : T α) (lead : List Nat)
+    (hy : 2 ≤ y.rank) (hi : 2 ≤ init.rank) (hs : 1 ≤ sal.rank) (n : Nat) :
+    (vmfmmFit tiny eps minC maxC lnorm y init sal n).fix lead =
+      vmfmmFit tiny eps minC maxC lnorm (fixLead y 2 lead) (fixLead init 2 lead) (fixLead sal 1 lead) n :=
+  vmfmmFit_fixLead tiny eps minC maxC lnorm y init sal lead hy hi hs n
+
+/-- the same for well-shaped inputs `y : (*lead, N, D)`, `init : (*lead, K, N)`, `sal : (*lead, N)` -/
+theorem vmfmmFit_slices_shaped (tiny eps minC maxC : α) (lnorm : Nat → α → α) (y init sal : T α)
+    (D N K : Nat) (Ld lead : List Nat)
+    (hy : y.rshape = D :: N :: Ld) (hi : init.rshape = N :: K :: Ld) (hs : sal.rshape = N :: Ld) (n : Nat) :
+    (vmfmmFit tiny eps minC maxC lnorm y init sal n).fix lead =
+      vmfmmFit tiny eps minC maxC lnorm (fixLead y 2 lead) (fixLead init 2 lead) (fixLead sal 1 lead) n :=
+  vmfmmFit_fixLead tiny eps minC maxC lnorm y init sal lead
+    (by simp only [T.rank, hy, List.length_cons]; omega) (by simp only [T.rank, hi, List.length_cons]; omega)
+    (by simp only [T.rank, hs, List.length_cons]; omega) n
+
+/-- and its posterior (`fit_predict`) -/
+theorem vmfmmFitPredict_slices (tiny eps minC maxC : α) (lnorm : Nat → α → α) (y init sal : T α) (lead : List Nat)
+    (hy : 2 ≤ y.rank) (hi : 2 ≤ init.rank) (hs : 1 ≤ sal.rank) (n : Nat) :
+    fixLead (vmfmmPredict tiny lnorm (vmfmmFit tiny eps minC maxC lnorm y init sal n) y) 2 lead =
+      vmfmmPredict tiny lnorm
+        (vmfmmFit tiny eps minC maxC lnorm (fixLead y 2 lead) (fixLead init 2 lead) (fixLead sal 1 lead) n)
+        (fixLead y 2 lead) := by
+  obtain ⟨h1, h2, h3⟩ := vmfmmFit_ranks tiny eps minC maxC lnorm y init sal hy hi hs n
+  rw [vmfmmPredict_fixLead tiny lnorm _ y lead h1 h2 h3 hy, vmfmmFit_fixLead tiny eps minC maxC lnorm y init sal lead hy hi hs n]
+
+/-- `VMFMMTrainer.fit` itself (normalisation of `y`, `saliency=None` ↦ ones, then `_fit`) -/
+theorem vmfmmTrainerFit_slices (tiny eps minC maxC : α) (lnorm : Nat → α → α) (y init : T α) (sal : Option (T α))
+    (lead : List Nat) (hy : 2 ≤ y.rank) (hi : 2 ≤ init.rank) (hs : ∀ s, sal = some s → 1 ≤ s.rank) (n : Nat) :
+    (vmfmmTrainerFit tiny eps minC maxC lnorm y init sal n).fix lead =
+      vmfmmTrainerFit tiny eps minC maxC lnorm (fixLead y 2 lead) (fixLead init 2 lead) (sal.map (fixLead · 1 lead)) n :=
+  vmfmmTrainerFit_fixLead tiny eps minC maxC lnorm y init sal lead hy hi hs n
+
+end vmfmm
+
+section cwmm
+variable {κ : Type} [Add α] [Sub α] [Mul α] [Div α] [Neg α] [OfNat α 0] [OfNat α 1] [NatCast α] [Max α]
+  [LT α] [DecidableLT α] [BEq α] [Transc α]
+  [Add κ] [Sub κ] [Mul κ] [Div κ] [OfNat κ 0] [OfNat κ 1] [CxOps α κ]
+
+/-- `CWMMTrainer._m_step` (scatter matrices, `get_pca` with its reshapes, concentration spline).  `hg` is a statement
+about SHAPES: `lead` is a valid leading index of the scatter stack `(..., K, D, D)` that `get_pca` flattens and no
+flattened axis is empty. -/
+theorem cwmmMStep_slices (eps : α) (eigh : T κ → T κ × T α) (kinv : α → α) (y : T κ) (aff : T α) (sal : Option (T α))
+    (lead : List Nat) (hy : 2 ≤ y.rank) (ha : 2 ≤ aff.rank) (hs : ∀ s, sal = some s → 1 ≤ s.rank)
+    (hg : GoodLead 2 (cwmmScatter y aff sal) lead) :
+    (cwmmMStep eps eigh kinv y aff sal).fix lead =
+      cwmmMStep eps eigh kinv (fixLead y 2 lead) (fixLead aff 2 lead) (sal.map (fixLead · 1 lead)) :=
+  cwmmMStep_fixLead eps eigh kinv y aff sal lead hy ha hs hg
+
+/-- `CWMM.predict` (E-step) -/
+theorem cwmmPredict_slices (tiny : α) (lnorm : Nat → α → α) (m : Cwmm α κ) (y : T κ) (lead : List Nat)
+    (hw : 2 ≤ m.weight.rank) (hm : 2 ≤ m.mode.rank) (hc : 1 ≤ m.conc.rank) (hy : 2 ≤ y.rank) :
+    fixLead (cwmmPredict tiny lnorm m y) 2 lead = cwmmPredict tiny lnorm (m.fix lead) (fixLead y 2 lead) :=
+  cwmmPredict_fixLead tiny lnorm m y lead hw hm hc hy
+
+/-- **`CWMMTrainer._fit`, any number of iterations.**  `hg`: the shape condition of `cwmmMStep_slices` for the scatter
+stack of every iteration (`cwmmAffiliation … k` is the affiliation the `k`-th M-step receives). -/
+theorem cwmmFit_slices (tiny eps : α) (eigh : T κ → T κ × T α) (kinv : α → α) (lnorm : Nat → α → α) (y : T κ)
+    (init : T α) (sal : Option (T α)) (lead : List Nat)
+    (hy : 2 ≤ y.rank) (hi : 2 ≤ init.rank) (hs : ∀ s, sal = some s → 1 ≤ s.rank) (n : Nat)
+    (hg : ∀ k, k ≤ n → GoodLead 2 (cwmmScatter y (cwmmAffiliation tiny eps eigh kinv lnorm y init sal k) sal) lead) :
+    (cwmmFit tiny eps eigh kinv lnorm y init sal n).fix lead =
+      cwmmFit tiny eps eigh kinv lnorm (fixLead y 2 lead) (fixLead init 2 lead) (sal.map (fixLead · 1 lead)) n :=
+  cwmmFit_fixLead tiny eps eigh kinv lnorm y init sal lead hy hi hs n hg
+
+/-- **`CWMMTrainer._fit` on well-shaped inputs, any number of iterations**: observations `(*lead, N, D)`, initial
+affiliation `(*lead, K, N)`, saliency `(*lead, N)` or `None`, `K > 0`, no empty leading axis.  For every in-range leading
+index the model fitted on the stack, restricted to that index (weights, modes, concentrations), IS the model fitted on
+the slice alone. -/
+theorem cwmmFit_slices_shaped (tiny eps : α) (eigh : T κ → T κ × T α) (kinv : α → α) (lnorm : Nat → α → α) (y : T κ)
+    (init : T α) (sal : Option (T α)) (D N K : Nat) (Ld lead : List Nat)
+    (hy : y.rshape = D :: N :: Ld) (hi : init.rshape = N :: K :: Ld) (hs : ∀ s, sal = some s → s.rshape = N :: Ld)
+    (hK : 0 < K) (hpos : ∀ d, d ∈ Ld → 0 < d) (hv : ValidLead Ld lead) (n : Nat) :
+    (cwmmFit tiny eps eigh kinv lnorm y init sal n).fix lead =
+      cwmmFit tiny eps eigh kinv lnorm (fixLead y 2 lead) (fixLead init 2 lead) (sal.map (fixLead · 1 lead)) n :=
+  cwmmFit_fixLead_shaped tiny eps eigh kinv lnorm y init sal D N K Ld lead hy hi hs hK hpos hv n
+
+/-- and its posterior (`fit_predict`) -/
+theorem cwmmFitPredict_slices_shaped (tiny eps : α) (eigh : T κ → T κ × T α) (kinv : α → α) (lnorm : Nat → α → α)
+    (y : T κ) (init : T α) (sal : Option (T α)) (D N K : Nat) (Ld lead : List Nat)
+    (hy : y.rshape = D :: N :: Ld) (hi : init.rshape = N :: K :: Ld) (hs : ∀ s, sal = some s → s.rshape = N :: Ld)
+    (hK : 0 < K) (hpos : ∀ d, d ∈ Ld → 0 < d) (hv : ValidLead Ld lead) (n : Nat) :
+    fixLead (cwmmPredict tiny lnorm (cwmmFit tiny eps eigh kinv lnorm y init sal n) y) 2 lead =
+      cwmmPredict tiny lnorm
+        (cwmmFit tiny eps eigh kinv lnorm (fixLead y 2 lead) (fixLead init 2 lead) (sal.map (fixLead · 1 lead)) n)
+        (fixLead y 2 lead) := by
+  obtain ⟨h1, h2, h3⟩ := cwmmFit_shapes tiny eps eigh kinv lnorm y init sal D N K Ld hy hi hs n
+  rw [cwmmPredict_fixLead tiny lnorm _ y lead
+    (by simp only [T.rank, h1, List.length_cons]; omega) (by simp only [T.rank, h2, List.length_cons]; omega)
+    (by simp only [T.rank, h3, List.length_cons]; omega) (by simp only [T.rank, hy, List.length_cons]; omega),
+    cwmmFit_fixLead_shaped tiny eps eigh kinv lnorm y init sal D N K Ld lead hy hi hs hK hpos hv n]
+
+/-- `CWMMTrainer.fit` itself (`normalize_observation`, `saliency=None` ↦ ones, then `_fit`) on well-shaped inputs -/
+theorem cwmmTrainerFit_slices_shaped (tiny eps : α) (eigh : T κ → T κ × T α) (kinv : α → α) (lnorm : Nat → α → α)
+    (y : T κ) (init : T α) (sal : Option (T α)) (D N K : Nat) (Ld lead : List Nat)
+    (hy : y.rshape = D :: N :: Ld) (hi : init.rshape = N :: K :: Ld) (hs : ∀ s, sal = some s → s.rshape = N :: Ld)
+    (hK : 0 < K) (hpos : ∀ d, d ∈ Ld → 0 < d) (hv : ValidLead Ld lead) (n : Nat) :
+    (cwmmTrainerFit tiny eps eigh kinv lnorm y init sal n).fix lead =
+      cwmmTrainerFit tiny eps eigh kinv lnorm (fixLead y 2 lead) (fixLead init 2 lead) (sal.map (fixLead · 1 lead)) n :=
+  cwmmTrainerFit_fixLead_shaped tiny eps eigh kinv lnorm y init sal D N K Ld lead hy hi hs hK hpos hv n
+
+/-- `CACGMMTrainer._m_step` (`weight_constant_axis=(-1,)`, `covariance_norm='eigenvalue'`, no inline aligner, no
+source-activity mask): weights, eigenvectors and (normalised, floored) eigenvalues -/
+theorem cacgmmMStep_slices (tiny eps floor : α) (herm : Bool) (eigh : T κ → T κ × T α) (x : T κ) (q aff : T α)
+    (sal : Option (T α)) (lead : List Nat)
+    (hx : 2 ≤ x.rank) (hq : 2 ≤ q.rank) (ha : 2 ≤ aff.rank) (hs : ∀ s, sal = some s → 1 ≤ s.rank) :
+    (cacgmmMStep tiny eps floor herm eigh x q aff sal).fix lead =
+      cacgmmMStep tiny eps floor herm eigh (fixLead x 2 lead) (fixLead q 2 lead) (fixLead aff 2 lead)
+        (sal.map (fixLead · 1 lead)) :=
+  cacgmmMStep_fixLead tiny eps floor herm eigh x q aff sal lead hx hq ha hs
+
+/-- `CACGMM._predict`: affiliation AND quadratic form -/
+theorem cacgmmPredict_slices (tiny : α) (clip : Option α) (m : Cacgmm α κ) (y : T κ) (lead : List Nat)
+    (hw : 2 ≤ m.weight.rank) (hv : 3 ≤ m.vecs.rank) (hl : 2 ≤ m.vals.rank) (hy : 2 ≤ y.rank) :
+    fixLead (cacgmmPredict tiny clip m y).1 2 lead = (cacgmmPredict tiny clip (m.fix lead) (fixLead y 2 lead)).1 ∧
+    fixLead (cacgmmPredict tiny clip m y).2 2 lead = (cacgmmPredict tiny clip (m.fix lead) (fixLead y 2 lead)).2 :=
+  cacgmmPredict_fixLead tiny clip m y lead hw hv hl hy
+
+/-- **the loop of `CACGMMTrainer.fit`, any number of iterations** (first M-step with `quadratic_form = ones`): every
+field of the model fitted on the stack, read at a leading index, is the field of the model fitted on that slice alone.
+The only hypotheses: the inputs have their core axes. -/
+theorem cacgmmFit_slices (tiny eps floor : α) (herm : Bool) (clip : Option α) (eigh : T κ → T κ × T α) (y : T κ)
+    (aff : T α) (sal : Option (T α)) (lead : List Nat)
+    (hy : 2 ≤ y.rank) (ha : 2 ≤ aff.rank) (hs : ∀ s, sal = some s → 1 ≤ s.rank) (n : Nat) :
+    (cacgmmFit tiny eps floor herm clip eigh y aff sal n).fix lead =
+      cacgmmFit tiny eps floor herm clip eigh (fixLead y 2 lead) (fixLead aff 2 lead) (sal.map (fixLead · 1 lead)) n :=
+  cacgmmFit_fixLead tiny eps floor herm clip eigh y aff sal lead hy ha hs n
+
+/-- the same for well-shaped inputs `y : (*lead, D, N)` (normalised), `aff : (*lead, K, N)`, `sal : (*lead, N)` or `None` -/
+theorem cacgmmFit_slices_shaped (tiny eps floor : α) (herm : Bool) (clip : Option α) (eigh : T κ → T κ × T α) (y : T κ)
+    (aff : T α) (sal : Option (T α)) (D N K : Nat) (Ld lead : List Nat)
+    (hy : y.rshape = N :: D :: Ld) (ha : aff.rshape = N :: K :: Ld) (hs : ∀ s, sal = some s → s.rshape = N :: Ld)
+    (n : Nat) :
+    (cacgmmFit tiny eps floor herm clip eigh y aff sal n).fix lead =
+      cacgmmFit tiny eps floor herm clip eigh (fixLead y 2 lead) (fixLead aff 2 lead) (sal.map (fixLead · 1 lead)) n :=
+  cacgmmFit_fixLead tiny eps floor herm clip eigh y aff sal lead
+    (by simp only [T.rank, hy, List.length_cons]; omega) (by simp only [T.rank, ha, List.length_cons]; omega)
+    (by intro s h; simp only [T.rank, hs s h, List.length_cons]; omega) n
+
+/-- and its posterior and quadratic form (`_predict` of the fitted model) -/
+theorem cacgmmFitPredict_slices (tiny eps floor : α) (herm : Bool) (clip : Option α) (eigh : T κ → T κ × T α) (y : T κ)
+    (aff : T α) (sal : Option (T α)) (lead : List Nat)
+    (hy : 2 ≤ y.rank) (ha : 2 ≤ aff.rank) (hs : ∀ s, sal = some s → 1 ≤ s.rank) (n : Nat) :
+    fixLead (cacgmmPredict tiny clip (cacgmmFit tiny eps floor herm clip eigh y aff sal n) y).1 2 lead =
+      (cacgmmPredict tiny clip
+        (cacgmmFit tiny eps floor herm clip eigh (fixLead y 2 lead) (fixLead aff 2 lead) (sal.map (fixLead · 1 lead)) n)
+        (fixLead y 2 lead)).1 := by
+  obtain ⟨h1, h2, h3⟩ := cacgmmFit_ranks tiny eps floor herm clip eigh y aff sal hy ha n
+  rw [(cacgmmPredict_fixLead tiny clip _ y lead h1 h2 h3 hy).1,
+    cacgmmFit_fixLead tiny eps floor herm clip eigh y aff sal lead hy ha hs n]
+
+/-- **`CACGMMTrainer.fit` itself**: `normalize_observation` (unit norm, swap `D` and `N`), `np.broadcast_to` of an initial
+affiliation whose leading axes may be singletons, then the loop.  The slice of the fit of the stack is the fit of the
+slice started from the slice of the initial affiliation (a singleton leading axis is read at 0, i.e. as if repeated). -/
+theorem cacgmmTrainerFit_slices (tiny eps floor : α) (herm : Bool) (clip : Option α) (eigh : T κ → T κ × T α) (y : T κ)
+    (init : T α) (sal : Option (T α)) (lead : List Nat)
+    (hy : 2 ≤ y.rank) (hi : 2 ≤ init.rank) (hs : ∀ s, sal = some s → 1 ≤ s.rank)
+    (hlen : (init.rshape.drop 2).length ≤ (y.rshape.drop 2).length)
+    (hcompat : ∀ i, i < (init.rshape.drop 2).length → (init.rshape.drop 2).getD i 1 ≠ 1 → (y.rshape.drop 2).getD i 1 ≠ 1)
+    (n : Nat) :
+    (cacgmmTrainerFit tiny eps floor herm clip eigh y init sal n).fix lead =
+      cacgmmTrainerFit tiny eps floor herm clip eigh (fixLead y 2 lead) (fixLead init 2 lead)
+        (sal.map (fixLead · 1 lead)) n :=
+  cacgmmTrainerFit_fixLead tiny eps floor herm clip eigh y init sal lead hy hi hs hlen hcompat n
+
+end cwmm
+
+/-- non-vacuity of the shape hypotheses of `cwmmFit_slices_shaped`: scatter matrices of shape `(5, 4, K=2, D=3, D=3)`
+and the leading index `[3, 2]` (reversed: axis of size 4 at 3, axis of size 5 at 2) -/
+example : GoodLead 2 (⟨[3, 3, 2, 4, 5], fun _ => 0⟩ : T Nat) [3, 2] ∧ ValidLead [4, 5] [3, 2] ∧ (∀ d, d ∈ [4, 5] → 0 < d) :=
+  ⟨goodLeadB_sound (by decide), validLeadB_sound (by decide), by decide⟩
+
+/-- `mapCore_class_slices` evaluated: "transpose every 2×2 matrix" applied to a `(3, 2, 2, 2)` stack (leading axis 3,
+class axis 2), read at leading index 2, class 1, entry `[1, 0]` -/
+example :
+    let t : T Nat := ⟨[2, 2, 2, 3], fun idx => idx.getD 0 0 + 10 * idx.getD 1 0 + 100 * idx.getD 2 0 + 1000 * idx.getD 3 0⟩
+    let tr : T Nat → T Nat := fun m => ⟨[2, 2], fun i => m.get [i.getD 1 0, i.getD 0 0]⟩
+    (fixLead (mapCore 2 2 [2, 2] tr t) 3 [2]).get [1, 0, 1] = 2110 ∧
+    (mapCore 2 2 [2, 2] tr (fixLead t 3 [2])).get [1, 0, 1] = 2110 := by
   decide
 
 end PbBss.C06
